@@ -119,7 +119,7 @@ contract(E + 'Engine.run_for', props=['C01', 'C02', 'C03', 'C04', 'C12'],
                 'future': 'Real', 'timestep': 'Real', 'process_delay': 'Real', 'store': 'Ref[Store]', 'states': 'Tree',
                 'update': 'Tup[Ref[Defer],Ref[Store]]', 'updates': 'Seq[Upd]', 'paths': 'Seq[Path]', 'new_update': 'Upd',
                 'quiet': 'Path', 'path': 'Path', 'process': 'Ref[Process]', 'advance': 'Front',
-                'p': 'Path', 'd': 'Ref[Defer]', 'i': 'Int', 'j': 'Int', 'g_qidx': 'Map[Path,Int]'},
+                'p': 'Path', 'd': 'Ref[Defer]', 'i': 'Int', 'j': 'Int', 'g_qidx': 'Map[Path,Int]', 'g_t0': 'Real'},
          requires=['interval > 0', 'self.g_views_valid', NO_PENDING, LEDGER, EMITS_SORTED, EMITS_PAST],
          modifies=['self.global_time', 'self.front', 'self.process_paths', 'self._step_paths', 'self.g_version',
                    'self.g_steps_run', 'self.g_emits', 'self.g_views_valid', 'Defer.g_live', 'Store.topology_view', 'Process.g_pending', 'Defer.defer', 'Defer.args',
@@ -144,6 +144,10 @@ contract(E + 'Engine.run_for', props=['C01', 'C02', 'C03', 'C04', 'C12'],
              6: {'invariant': QUIET_CLEAR},
          },
          ghost={
+             # C03 progress: every iteration of the scheduler loop strictly advances the clock (so, with timesteps bounded
+             # below by some delta > 0, the number of iterations of one call is bounded: termination)
+             'full_step = math.inf': {'after': ['g_t0 = self.global_time']},
+             'if force_complete and self.global_time == end_time': {'before': ['assert self.global_time > g_t0']},
              'quiet_paths = []': {'after': ['g_qidx = {}']},
              'quiet_paths.append(path)': {'after': ['g_qidx = map_put(g_qidx, path, len(quiet_paths) - 1)']},
              'process_timestep = process.calculate_timestep(states)': {'after': [
@@ -174,3 +178,37 @@ contract(E + 'Engine.update', props=['C02', 'C01', 'C03'],
                   "forall(lambda p: implies(has(self.front, p), %s == self.global_time))" % TIME('p')],
          note='update() = run_for(force_complete=True) followed by _check_complete: the postcondition of run_for implies '
               'the precondition of _check_complete, i.e. its two run-time assertions can never fire')
+
+# ---- the constructor establishes the precondition of run_for (so that every call sequence composes from construction) ----
+external(E + 'Engine._make_store',
+         types={'store': 'Val', 'composite': 'Val', 'processes': 'Val', 'steps': 'Val', 'flow': 'Val', 'topology': 'Val'},
+         modifies=['self.state', 'self.processes', 'self.steps', 'self.topology', 'self.flow', 'self.g_views_valid',
+                   'Store.topology_view'],
+         ensures=['self.g_views_valid'],
+         why_trusted='generate_state / Store.build_topology_views build the hierarchy and the views (bounded-checked under C06/C07/C15)')
+external(E + 'Engine._emit_configuration', types={}, why_trusted='emitter side: bounded-checked under C12')
+
+contract(E + 'Engine.__init__', props=['C05', 'C12', 'C01'],
+         types={'composite': 'Val', 'processes': 'Val', 'steps': 'Val', 'flow': 'Val', 'topology': 'Val', 'store': 'Val',
+                'initial_state': 'Val', 'experiment_id': 'Val', 'experiment_name': 'Val', 'metadata': 'Val', 'description': 'Val',
+                'emitter': 'Val', 'store_schema': 'Val', 'emit_topology': 'Bool', 'emit_processes': 'Bool', 'emit_config': 'Bool',
+                'emit_step': 'Real', 'display_info': 'Bool', 'progress_bar': 'Bool', 'global_time_precision': 'Opt[Int]',
+                'profile': 'Bool', 'initial_global_time': 'Real', 'p': 'Path', 'i': 'Int'},
+         requires=['len(self.g_emits) == 0', 'self.g_steps_run == 0'],
+         abstract=['self.profiler', 'if profile:', 'self.stats_objs', 'self.stats:', 'self.stats =', 'self.experiment_id', 'self.initial_state',
+                   'self.experiment_name', 'self.metadata', 'self.description', 'self.time_created', 'if self.display_info:',
+                   'self.process_paths:', 'self.process_paths =', 'self._step_graph', 'self._step_paths', 'self._find_process_paths',
+                   'self._find_step_paths', 'self._validate_steps_and_flow', 'emitter_config', 'if isinstance(emitter_config',
+                   'self.emitter', 'if store_schema:', 'self.emit_topology', 'self.emit_processes', 'self.emit_config'],
+         modifies=['self.global_time', 'self.front', 'self.process_paths', 'self._step_paths', 'self.g_version', 'self.g_steps_run',
+                   'self.g_emits', 'self.g_views_valid', 'self.emit_step', 'self.display_info', 'self.global_time_precision',
+                   'self.progress_bar', 'self.state', 'self.processes', 'self.steps', 'self.topology', 'self.flow',
+                   'Store.topology_view', 'Process.g_pending', 'Defer.defer', 'Defer.args', 'Defer.g_empty', 'Defer.g_issued',
+                   'Defer.g_consumed', 'Defer.g_path', 'Defer.g_dt', 'Defer.g_live'],
+         alloc=True,
+         ensures=[
+             # exactly the precondition of run_for ...
+             'self.g_views_valid', NO_PENDING, EMITS_SORTED, EMITS_PAST,
+             'self.global_time == initial_global_time',
+             # ... one step phase before the first row, and exactly one row, for the initial time (C05 / C12)
+             'self.g_steps_run == 1', 'len(self.g_emits) == 1', 'self.g_emits[0] == initial_global_time'])
